@@ -328,7 +328,7 @@ pub struct Reporter {
 
 impl Reporter {
     pub fn new(property: &str, tier: &str) -> Reporter {
-        let path = std::env::var("VERIF_KNOWN").unwrap_or_else(|_| "/verif/known_findings.json".to_string());
+        let path = std::env::var("VERIF_KNOWN").unwrap_or_else(|_| format!("{}/known_findings.json", crate::cli::home()));
         let known = match load_known(&path, property) {
             Ok(k) => k,
             Err(e) => {
@@ -414,7 +414,7 @@ impl Reporter {
         let u = self.unknown.lock().unwrap();
         let mut classes: Vec<&(u64, Viol)> = u.values().collect();
         classes.sort_by_key(|(_, v)| v.weight);
-        let dir = format!("/verif/replays/{}", self.property);
+        let dir = format!("{}/replays/{}", crate::cli::home(), self.property);
         let _ = std::fs::create_dir_all(&dir);
         let mut printed = 0;
         let mut viol_json = Vec::new();
@@ -526,8 +526,8 @@ impl Coverage {
             "wall_s": r.started.elapsed().as_secs_f64(),
             "violations": nviol,
         });
-        let _ = std::fs::create_dir_all("/verif/evidence");
-        let path = format!("/verif/evidence/{}.json", r.property);
+        let _ = std::fs::create_dir_all(format!("{}/evidence", crate::cli::home()));
+        let path = format!("{}/evidence/{}.json", crate::cli::home(), r.property);
         if let Err(e) = std::fs::write(&path, serde_json::to_string_pretty(&ev).unwrap()) {
             eprintln!("MACHINERY: cannot write {}: {}", path, e);
             std::process::exit(2);
